@@ -55,6 +55,8 @@ func (s *gerSender) IsGERInjected(ger common.Hash) (bool, error) {
 		return false, errWorldDead
 	case replyTransient, replyNotFound:
 		return false, errInjectedRPC
+	case replyDeadline:
+		return false, errInjectedTimeout
 	}
 	s.mu.Lock()
 	defer s.mu.Unlock()
@@ -67,6 +69,8 @@ func (s *gerSender) InjectGER(ctx context.Context, ger common.Hash) error {
 		return errWorldDead
 	case replyTransient, replyNotFound:
 		return errInjectedRPC
+	case replyDeadline:
+		return errInjectedTimeout
 	}
 	s.mu.Lock()
 	already := s.injected[ger]
@@ -210,7 +214,11 @@ func runC15(tr *Trace, sc *Script, rec *Recorder, scratch string) *Violation {
 			ms := []int64{cfg["tick_ms"], cfg["tick_ms"], 100, 20000}[r.Intn(4)]
 			return Op{K: "time", A: []int64{ms}}, true
 		default:
-			return Op{K: "rel", S: labels[r.Intn(len(labels))], A: []int64{1}}, true
+			fm := int64(1)
+			if r.Bool(30) {
+				fm = replyDeadline // a request that times out although the oracle's own context is alive
+			}
+			return Op{K: "rel", S: labels[r.Intn(len(labels))], A: []int64{fm}}, true
 		}
 	}
 	syncTo := func(to uint64) *Violation {
@@ -258,7 +266,7 @@ func runC15(tr *Trace, sc *Script, rec *Recorder, scratch string) *Violation {
 				continue
 			}
 			if op.Arg(0) != 0 {
-				rec.Stats.Inc("rpc_fault_1_" + p.method)
+				rec.Stats.Inc(fmt.Sprintf("rpc_fault_%d_%s", op.Arg(0), p.method))
 			}
 			rec.Step("r" + p.label + p.method[:2] + fmt.Sprint(op.Arg(0)))
 			w.Release(p, int(op.Arg(0)))
